@@ -35,7 +35,7 @@ PAIRS = {'asjson': 'fromjson', 'compact_value': 'decompact_value', 'json.dumps':
          'tty_escape': 'tty_unescape', 'hashed': 'unhashed'}
 
 
-def _stages(fn) -> list[str]:
+def _stages(fn, a=None, depth: int = 0) -> list[str]:
     """the codec stages applied to the data, in application order: statements in source order, nested calls innermost first
     along the first argument (`hashed(tty_escape(class_escape(s)))` = class_escape, tty_escape, hashed)"""
     vocab = set(PAIRS) | set(PAIRS.values())
@@ -44,6 +44,11 @@ def _stages(fn) -> list[str]:
         if isinstance(e, ast.Call):
             inner = chain(e.args[0]) if e.args else []
             nm = dotted(e.func)
+            if nm not in vocab and a is not None and depth < 3:
+                # a private helper of the module that holds part of the pipeline: its stages, in its order
+                h = a.extents.helper_for_call(fn, fn, e) or a.extents.shared_helper_for_call(fn, e)
+                if h is not None:
+                    return inner + _stages(h, a, depth + 1)
             return inner + ([nm] if nm in vocab else [])
         return []
     out = []
@@ -67,7 +72,7 @@ def r1_mirror(a, tier):
         floor=6,
     )
     p, u = a.p.func(f'{PKT}.pack'), a.p.func(f'{PKT}.unpack')
-    ps, us = _stages(p), _stages(u)
+    ps, us = _stages(p, a), _stages(u, a)
     us = [s for s in us if s not in ('CannotUnPacketError',)]
     want = [PAIRS.get(s, f'<no inverse of {s}>') for s in reversed(ps)]
     for i, s in enumerate(ps):
@@ -293,8 +298,13 @@ def _reader_typestate(a, rep, q, cls, fn):
         rep.fail(fn.qualname, 'no-partial-test', f'{fn.name}() does not test whether the line read ends with a newline: a partially written '
                  'record is decoded (and skipped as corrupt) instead of being left for the next poll, and the offset moves past it', fn.loc)
     from ..rules.common import always_exits
-    guard = any(isinstance(n, ast.If) and ('not in self._seen' in norm(n.test) or (' in self._seen' in norm(n.test) and always_exits(n.body)))
-                for n in walk_no_defs(fn.node))
+    def seen_test(f_):
+        return any(isinstance(n, ast.If) and ('not in self._seen' in norm(n.test) or (' in self._seen' in norm(n.test) and always_exits(n.body)))
+                   for n in walk_no_defs(f_.node))
+    helpers = [cls.methods[c.func.attr] for n in walk_no_defs(fn.node) if isinstance(n, ast.If) for c in ast.walk(n.test)
+               if isinstance(c, ast.Call) and isinstance(c.func, ast.Attribute) and norm(c.func.value) == 'self' and c.func.attr in cls.methods
+               and c.func.attr.startswith('_')]
+    guard = seen_test(fn) or any(seen_test(h) for h in helpers)
     rep.add({'fn': fn.qualname, 'delivery_guarded_by_seen_set': guard})
     if not guard:
         rep.fail(fn.qualname, 'no-seen-guard', 'delivery is not guarded by `id not in self._seen`', fn.loc)
